@@ -530,7 +530,7 @@ def run(ctx):
         for c in f.calls():
             n = f.nodes[c]
             if (n.get("callee") or "").startswith("xcm_tp_socket_"):
-                a0 = f.sn(n["args"][0])
+                a0 = f.nodes[f.origin(n["args"][0])]
                 if a0["k"] == "call" and a0.get("callee") == "active_sub_conn":
                     uses = True
                 elif a0["k"] == "member" and a0["field"] in ("ux_socket", "tls_socket"):
@@ -544,8 +544,23 @@ def run(ctx):
             r8.violation("utls:%s:leg" % slot, "connection %s does not select its leg through active_sub_conn" % slot, loc=f.file)
     # the selector prefers one leg and falls back to the other
     r8.instance("active_sub_conn")
-    rn = [n for n in sel.nodes.values() if n["k"] == "cond"]
-    if rn and {sel.sn(rn[0]["tv"]).get("field"), sel.sn(rn[0]["fv"]).get("field")} == {"ux_socket", "tls_socket"}:
+    # (ternary or if/else: what counts is the set of values returned and that the choice tests a leg for presence)
+    legs, tested = set(), set()
+
+    def ret_values(x):
+        m = sel.sn(x)
+        if m["k"] == "cond":
+            tested.update(fld for y in sel.walk(m["c"]) for fld in [sel.nodes[y].get("field")] if sel.nodes[y]["k"] == "member")
+            ret_values(m["tv"])
+            ret_values(m["fv"])
+        else:
+            legs.add(m.get("field") if m["k"] == "member" else sel.show(x))
+    for n in sel.nodes.values():
+        if n["k"] == "return" and n.get("sub") is not None:
+            ret_values(n["sub"])
+    for b, cond in C.cond_blocks(sel):
+        tested.update(fld for y in sel.walk(cond) for fld in [sel.nodes[y].get("field")] if sel.nodes[y]["k"] == "member")
+    if legs == {"ux_socket", "tls_socket"} and tested & legs:
         r8.ok("active_sub_conn returns the UX leg if present, else the TLS leg")
     else:
         r8.violation("active_sub_conn:select", "selector does not choose between the two legs", loc=sel.file)
